@@ -203,7 +203,7 @@ def check(tier):
               "table_has_exactly_the_defined_and_used_names", "no_definition_is_reported_iff_a_token_is_used_without_one",
               "multiple_definitions_are_reported_iff_there_are_several", "unknown_predefined_name_is_reported_iff_written", "no_start_rule_is_reported_iff_none_is_written",
               "reported_missing_rule_is_missing", "missing_rule_is_reported", "same_value_is_reported_iff_two_terminals_share_it",
-              "rejected_iff_ill_formed", "rejected_iff_ill_formed_declaratively", "accepted_iff_wf_spec", "declared_definitions_example", "verdict_examples", "name_clash_refuted"]:
+              "rejected_iff_ill_formed", "rejected_iff_ill_formed_declaratively", "accepted_iff_wf_spec", "declared_definitions_example", "verdict_examples", "gen_name_premise_is_needed", "name_clash_refuted"]:
         rep.obligation("Props/C07.v: " + t, ok)
     rep.cov["print_assumptions"] = "Closed under the global context x%d" % log.count("Closed under the global context") if ok else "n/a"
     rep.cov["partial"] = ["name_clash_refuted (known finding D7): the declarative iff is claimed under names_distinct"]
